@@ -250,3 +250,37 @@ def explore(make_run, bound, max_runs, rng=None, random_runs=0):
         seen.add(key)
         check(sched)
         yield sched, -1
+
+
+def one_switch(make_run, n_threads, max_k, seen=None):
+    """Schedules with a single hand-over: thread a runs k steps, then thread b runs to completion (then the others), then a
+    finishes - for every ordered pair (a, b) and k = 0 .. max_k-1 (stops early when a finishes before k steps).  Most
+    check-then-act races need exactly this shape: the whole competing operation inside one window of the first."""
+    seen = set() if seen is None else seen
+    for a in range(n_threads):
+        for b in range(n_threads):
+            if a == b:
+                continue
+            for k in range(max_k):
+                run, check = make_run()
+                taken = [0]
+
+                def choose(enabled, cur, a=a, b=b, k=k):
+                    if taken[0] < k and a in enabled:
+                        taken[0] += 1
+                        return a
+                    if b in enabled:
+                        return b
+                    others = [t for t in enabled if t != a]
+                    if others:
+                        return min(others)
+                    return a if a in enabled else min(enabled)
+                sched = run(choose)
+                done_early = taken[0] < k
+                key = tuple(sched)
+                if key not in seen:
+                    seen.add(key)
+                    check(sched)
+                    yield sched, -2
+                if done_early:
+                    break
